@@ -421,8 +421,8 @@ class State:
             return 'FAIL alternating sum of Betti numbers != Euler characteristic'
         mo = B.maxOrder(c)
         hi = B.bettiNumbers(c, [mo + 1, mo + 3])
-        if any(v != 0 for v in hi.values()):
-            return 'FAIL Betti number above the maximum order is %r' % (hi,)
+        if any(v != 0 for v in hi.values()) or set(hi.keys()) != {mo + 1, mo + 3}:
+            return 'FAIL Betti numbers above the maximum order are %r' % (dict(hi),)
         if mo >= 0:
             some = B.bettiNumbers(c, [mo, 0])
             if some[mo] != want[mo] or some[0] != want[0]:
@@ -683,6 +683,15 @@ class State:
                 return 'FAIL %r was not copied into the target' % (s,)
             if B.orderOf(a, s) != B.orderOf(b, s) or B.faces(a, s) != B.faces(b, s) or B.getAttributes(a, s) != B.getAttributes(b, s):
                 return 'FAIL %r differs between source and target' % (s,)
+        return 'ok'
+
+    def o_deepnested(self, ha, hb):
+        """after copy.deepcopy mutable attribute *values* are copies too"""
+        a, b = self.C(ha), self.C(hb)
+        for s in B.simplices(a):
+            for k, v in B.getAttributes(a, s).items():
+                if isinstance(v, (list, dict)) and s in B.simplices(b) and B.getAttributes(b, s).get(k) is v:
+                    return 'FAIL the deep copy shares the attribute value %r of %r with its source' % (k, s)
         return 'ok'
 
     def o_noshare(self, *hs):
